@@ -44,7 +44,7 @@ class FuncReport:
         return len([o for o in self.obligations if o["kind"] != "cover" and o["status"] == "discharged"])
 
     def failed(self):
-        return [o for o in self.obligations if o["status"] not in ("discharged", "covered")]
+        return [o for o in self.obligations if o["status"] not in ("discharged", "covered", "vacuous")]
 
 
 def explore(contract: Contract, index: Index, registry=None, max_paths=MAX_PATHS):
